@@ -7,6 +7,7 @@
 package vws
 
 import (
+	"time"
 	"io"
 	"errors"
 	"net"
@@ -26,6 +27,12 @@ type State struct {
 	closeq     chan struct{}
 	Closed     bool
 	Frames     []Frame // what mangos wrote
+	Controls   []Frame // control frames mangos wrote (WriteControl)
+	// WriteStall: the peer has stopped reading - a WriteMessage is accepted but does not return until Release or
+	// until the connection is closed (it then fails); like gorilla it holds the connection's write lock meanwhile
+	WriteStall bool
+	release    chan struct{}
+	wmu        chan struct{}
 	ReadLimit  int64
 	LimitSet   bool
 	Offered    []string // subprotocols offered by a dialing mangos
@@ -50,7 +57,7 @@ var ErrTooBig = errors.New("vws: read limit exceeded")
 // NewConn creates a connection handle (the gorilla type, never used for real).
 func NewConn(name string) (*websocket.Conn, *State) {
 	c := &websocket.Conn{}
-	s := &State{Name: name, inq: make(chan frame, 64), closeq: make(chan struct{})}
+	s := &State{Name: name, inq: make(chan frame, 64), closeq: make(chan struct{}), release: make(chan struct{}, 64), wmu: make(chan struct{}, 1)}
 	States[c] = s
 	return c, s
 }
@@ -107,7 +114,54 @@ func ConnWriteMessage(c *websocket.Conn, mt int, data []byte) error {
 	if s.Closed {
 		return ErrClosed
 	}
+	s.wmu <- struct{}{} // the connection's write lock (gorilla: one writer at a time)
+	defer func() { <-s.wmu }()
+	if s.WriteStall {
+		select {
+		case <-s.release:
+		case <-s.closeq:
+			return ErrClosed // Close fails the write that is in progress
+		}
+	}
+	if s.Closed {
+		return ErrClosed
+	}
 	s.Frames = append(s.Frames, Frame{Type: mt, Data: append([]byte{}, data...)})
+	return nil
+}
+
+// Release lets one stalled WriteMessage complete.
+func (s *State) Release() { s.release <- struct{}{} }
+
+// ErrWriteTimeout is what WriteControl reports when it could not get the write lock before its deadline.
+var ErrWriteTimeout = errors.New("vws: write control timeout")
+
+// ConnWriteControl: gorilla's contract - it may be called concurrently with the other methods, waits for the
+// connection's write lock until the deadline (a zero deadline means no limit), and is NOT woken by anything but
+// the lock becoming free.
+func ConnWriteControl(c *websocket.Conn, mt int, data []byte, deadline time.Time) error {
+	s := States[c]
+	if s.Closed {
+		return ErrClosed
+	}
+	if deadline.IsZero() {
+		s.wmu <- struct{}{}
+	} else {
+		d := time.Until(deadline)
+		if d < 0 {
+			d = 0
+		}
+		select {
+		case s.wmu <- struct{}{}:
+		case <-time.After(d):
+			return ErrWriteTimeout
+		}
+	}
+	defer func() { <-s.wmu }()
+	if s.Closed {
+		return ErrClosed
+	}
+	s.Controls = append(s.Controls, Frame{Type: mt, Data: append([]byte{}, data...)})
 	return nil
 }
 
